@@ -16,6 +16,14 @@ let rec repeat_z x n = if n <= 0 then [] else x :: repeat_z x (n - 1)
 let show_out (f : 'a -> string) (o : 'a outcome) : string =
   match o with Ok a -> f a | Err _ -> "E" | Panic -> "PANIC"
 
+let ll_parse (s : string) : iphc_ll option =
+  match s with
+  | "-" -> None
+  | "a" -> Some LlAbsent
+  | _ ->
+    let h = String.sub s 2 (String.length s - 2) in
+    if s.[0] = 's' then Some (LlShort (bytes_of_hex h)) else Some (LlExtended (bytes_of_hex h))
+
 (* ---------- stream lowpan-wire ---------- *)
 let wire_op (t : string list) : string =
   match t with
@@ -56,6 +64,31 @@ let wire_op (t : string list) : string =
                  Printf.sprintf "%s %s ck=%s pl=%s" (sz r.np_src) (sz r.np_dst)
                    (match c with Some c -> sz c | None -> "-") (hex_of_bytes pl)
              | _ -> "PANIC")))
+  | "iphc_emit" :: _ ->
+      let r = { ir_src = bytes_of_hex (kv t "src"); ir_ll_src = ll_parse (kv t "lls");
+                ir_dst = bytes_of_hex (kv t "dst"); ir_ll_dst = ll_parse (kv t "lld");
+                ir_nh = (match kv t "nh" with "c" -> None | s -> Some (zs s));
+                ir_hl = kvz t "hl"; ir_ecn = None; ir_dscp = None; ir_flow = None } in
+      (match iphc_buffer_len r with
+       | Ok n ->
+           let buf = repeat_z (kvz t "fill") (iz n + int_of_string (kv t "extra")) in
+           show_out (fun b -> Printf.sprintf "%s %s" (sz n) (hex_of_bytes b)) (iphc_emit r buf)
+       | _ -> "PANIC")
+  | "iphc_parse" :: _ ->
+      let b = bytes_of_hex (last t) in
+      let ctx = match kv t "ctx" with "-" -> [] | s -> List.map bytes_of_hex (String.split_on_char ',' s) in
+      (match iphc_check_len b with
+       | Err _ -> "E" | Panic -> "PANIC"
+       | Ok () ->
+         (match iphc_parse b (ll_parse (kv t "lls")) (ll_parse (kv t "lld")) ctx with
+          | Err _ -> "E" | Panic -> "PANIC"
+          | Ok r ->
+            let o = function Some v -> sz v | None -> "-" in
+            Printf.sprintf "src=%s dst=%s nh=%s hl=%s tf=%s/%s/%s hlen=%s"
+              (hex_of_bytes r.ir_src) (hex_of_bytes r.ir_dst)
+              (match r.ir_nh with None -> "c" | Some p -> sz p) (sz r.ir_hl)
+              (o r.ir_ecn) (o r.ir_dscp) (o r.ir_flow)
+              (show_out sz (iphc_header_len b))))
   | op :: _ -> failwith ("unknown wire op " ^ op)
   | [] -> failwith "empty op"
 
